@@ -12,7 +12,7 @@ view, selection, isolation, restore, rejection, query/dispatch consistency."""
 import itertools, os, queue, random, sys, threading, time
 from harness import common as C
 
-HEADER = """From Coq Require Import List Bool NArith. Import ListNotations.
+HEADER = """From Coq Require Import List Bool NArith Uint63. Import ListNotations.
 From TLV Require Import Model.Backend Corr.C17."""
 
 TIMEOUT = 60  # seconds a driver waits for a worker before declaring the harness stuck
@@ -195,6 +195,16 @@ class Worker:
         except queue.Empty:
             raise HarnessStuck(f"thread {self.tid} did not answer {cmd!r}")
 
+    def obs(self):
+        try:
+            return self.M.observe()
+        except Exception as e:  # noqa
+            return (98, ("?", "observe raised " + repr(e)[:80]), [])
+
+    def reply(self, res):
+        """outcome of an operation + what THIS thread observes right after it (saves one hand-over per step)"""
+        self.r.put((res, self.obs()))
+
     def body(self, depth):
         """serve commands at context depth `depth`; returns 'normal' (leave the innermost context normally)
         or 'stop'; raises Boom for an exceptional exit"""
@@ -204,33 +214,30 @@ class Worker:
             cmd = self.q.get()
             k = cmd[0]
             if k == "obs":
-                try:
-                    self.r.put(M.observe())
-                except Exception as e:  # noqa
-                    self.r.put((98, ("?", "observe raised " + repr(e)[:80]), []))
+                self.r.put(self.obs())
             elif k == "set":
                 try:
                     mgr.set_backend(M.sel_obj(cmd[1]), local_threadsafe=cmd[2])
-                    self.r.put("done")
+                    self.reply("done")
                 except Exception as e:  # noqa
-                    self.r.put("rejected")
+                    self.reply("rejected")
             elif k == "enter":
                 entered, how = False, "swallowed"
                 try:
                     with mgr.backend_context(M.sel_obj(cmd[1]), local_threadsafe=cmd[2]):
                         entered = True
-                        self.r.put("done")
+                        self.reply("done")
                         how = self.body(depth + 1)
                     if how in ("stop", "quit"):
                         return how
-                    self.r.put("done" if how == "normal" else "exitfailed")
+                    self.reply("done" if how == "normal" else "exitfailed")
                 except Boom:
-                    self.r.put("done" if entered else "exitfailed")
+                    self.reply("done" if entered else "exitfailed")
                 except Exception as e:  # noqa
-                    self.r.put("exitfailed" if entered else "rejected")
+                    self.reply("exitfailed" if entered else "rejected")
             elif k == "exit":
                 if depth == 0:
-                    self.r.put("noctx")
+                    self.reply("noctx")
                 elif cmd[1]:
                     raise Boom()
                 else:
@@ -251,10 +258,12 @@ def drive(M, history, main_worker, nthreads):
     if main_worker is not None:
         workers[0] = main_worker
 
-    def observe_all():
+    def observe_all(actor=None, own=None):
         out = []
         for t in range(nthreads):
-            if t == 0 and main_worker is None:
+            if t == actor:
+                out.append(own)
+            elif t == 0 and main_worker is None:
                 out.append(M.observe())
             else:
                 out.append(workers[t].call(("obs",)))
@@ -272,7 +281,8 @@ def drive(M, history, main_worker, nthreads):
                 res = workers[t].call(("exit", op[2]))
             if isinstance(res, tuple) and res and res[0] == "harness-error":
                 raise HarnessStuck(str(res))
-            steps.append((res, observe_all()))
+            res, own = res
+            steps.append((res, observe_all(t, own)))
         return obs0, steps
     finally:
         for t, w in workers.items():
@@ -302,7 +312,7 @@ def run_histories(tenalg, main_actor, nthreads, histories):
         try:
             for h in histories:
                 # unwind / reset happen in the main thread through its queue
-                mw.call(("set", ("n", 0), False))
+                mw.call(("set", ("n", 0), False))     # reply (outcome, observation) not needed here
                 out.append(drive(M, h, mw, nthreads))
                 mw.q.put(("stop",))          # leaves every context the main thread still has open
         except BaseException as e:  # noqa
@@ -428,7 +438,7 @@ def seen_digits(obs):
 
 
 def encode(tenalg, main_own, nthreads, history, result):
-    """the transport format decoded by Corr/C17.v `decode`: base-64 digits, least significant first, closed by 1"""
+    """the digit stream decoded by Corr/C17.v `decode` (base-64 digits)"""
     obs0, steps = result
     ds = [int(tenalg), nthreads, int(main_own)] + seen_digits(obs0) + [len(steps)]
     for op, (res, obs) in zip(history, steps):
@@ -439,17 +449,26 @@ def encode(tenalg, main_own, nthreads, history, result):
         ds.append(OUTCOME.get(res, 3))
         ds += seen_digits(obs)
     assert all(0 <= d < 64 for d in ds), ds
-    x = 1
-    for d in reversed(ds):
-        x = x * 64 + d
-    return x, len(ds)
+    return ds
+
+
+def pack(ds):
+    """transport format of Corr/C17.v: primitive 63-bit integers, the first is the number of digits, every
+    further one carries 10 digits, least significant first"""
+    ints = [len(ds)]
+    for k in range(0, len(ds), 10):
+        v = 0
+        for d in reversed(ds[k:k + 10]):
+            v = v * 64 + d
+        ints.append(v)
+    return "[" + "; ".join(f"{v}%uint63" for v in ints) + "]"
 
 
 def case_lit(cid, tenalg, main_own, nthreads, history, result, corrupt=False):
-    x, n = encode(tenalg, main_own, nthreads, history, result)
+    ds = encode(tenalg, main_own, nthreads, history, result)
     if corrupt:
-        x += 64 ** (n - 1)        # the executing object seen last by the last thread becomes another one
-    return f"({cid}%N, {x}%N)"
+        ds[-1] = (ds[-1] + 1) % 64        # the executing object seen last by the last thread becomes another one
+    return f"({cid}%N, {pack(ds)})"
 
 
 # ----------------------------------------------------------------------------- property predicates
@@ -649,12 +668,19 @@ def run(chk):
         tenalg, main_actor, nthreads, h, tag, r = meta[k]
         sentinels[len(cases)] = k
         cases.append(case_lit(len(cases), tenalg, True, nthreads, h, r, corrupt=True))
-    failing, n_eval, broken = C.run_case_shards("C17", HEADER, "case", cases, shard=2500)
+    t1 = time.time()
+    failing, n_eval, broken = C.run_case_shards("C17", HEADER, "case", cases, shard=2500, timeout=900)
+    # a shard killed by the shell timeout (overloaded machine) is "not evaluated", never an alarm: its cases are
+    # counted as skipped; the sentinels sit in the LAST shard, so a run in which that one is lost reports it
+    timed_out = [b for b in broken if b.get("rc") == 124]
+    broken = [b for b in broken if b.get("rc") != 124]
+    chk.cov["model_seconds"] = round(time.time() - t1, 1)
+    chk.cov["shards_skipped_by_timeout"] = len(timed_out)
     for sid in sentinels:
-        if sid not in failing and not broken:
+        if sid not in failing and not broken and not timed_out:
             chk.broken.append({"what": "correspondence corr:C17 comparator did not flag an altered observation (sentinel)", "detail": cases[sid][:200]})
         failing.discard(sid)
-    n_eval -= len(sentinels) if not broken else 0
+    n_eval -= len(sentinels) if not (broken or timed_out) else 0
     chk.checker_cmds.append("coqc (vm_compute) on generated build/cases/C17/*.v: Corr.C17.failing")
     chk.cov["traces_validated_against_impl"] = n_eval
     chk.cov["exhaustive"] = True
